@@ -181,11 +181,13 @@ def mon_c01_c02(cap, key, rp, want):
                 continue
             # (A) formulation: the model's own programme and the independent one, both solved by HiGHS
             tolA = 1e-5
+            relaxed_own = False
             if (mstat == 0) != (status == 0) and lp["obj"] is not None:
                 # one of the two is infeasible although the model's solver returned a solution: decide with the solver's own
                 # feasibility tolerance (a band pinned around a -1e-7 value is infeasible only by noise)
                 if mstat != 0:
                     mstat, mval = reflp.solve_matrix_lp(cap["models"][ri], relax=1e-6)
+                    relaxed_own = True
                 else:
                     status, ref = reflp.solve_reference(d, lp["kind"], pins, relax=1e-6)
                 tolA = 1e-4
@@ -193,7 +195,12 @@ def mon_c01_c02(cap, key, rp, want):
             if mstat == 0 and status == 0:
                 rel = abs(mval - ref) / max(1.0, abs(ref), abs(mval))
                 stats["max_rel"] = max(stats["max_rel"], rel)
-                if rel > tolA:
+                if rel > tolA and relaxed_own and abs(lp["obj"] - ref) <= 1e-3 * max(1.0, abs(ref), abs(lp["obj"])):
+                    # the model's own programme is infeasible at HiGHS's tolerance and was solved relaxed by 1e-6 (which can move a
+                    # small optimum by more than 1e-4), while the figure its own solver returned for it agrees with the independent
+                    # formulation: the relaxed figure is not evidence of a different formulation
+                    stats["borderline_decided_by_cbc"] = stats.get("borderline_decided_by_cbc", 0) + 1
+                elif rel > tolA:
                     v2.append(violation("optimum_matches_reference", k, "%s round %d (%s): the model's programme has optimum %.9g, the independent formulation %.9g (rel %.2e, %s)"
                                         % (key["iso3"], ri + 1, what, mval, ref, rel, "overstated" if mval > ref else "understated"), rp))
             elif (mstat == 0) != (status == 0):
